@@ -272,3 +272,23 @@ impl From<Arc<IRFold>> for EdgeKind {
         Self::Fold(fold)
     }
 }
+
+/// Verification-only entry point (feature `trustfall_verif`): the declared type of an output
+/// of a property of type `field_type`, at a vertex that is (not) inside an `@optional` scope of
+/// its component, inside folds whose `@optional`-ness is given outermost first.
+#[cfg(feature = "trustfall_verif")]
+pub fn verif_get_output_type(
+    vertex_is_optional: bool,
+    field_type: &Type,
+    are_folds_optional: &[bool],
+) -> Type {
+    let output_at = Vid::new(std::num::NonZeroUsize::new(1).expect("nonzero"));
+    let mut component_optional_vertices = BTreeSet::new();
+    if vertex_is_optional {
+        component_optional_vertices.insert(output_at);
+    }
+    let result =
+        get_output_type(output_at, field_type, &component_optional_vertices, are_folds_optional);
+    std::mem::forget(component_optional_vertices);
+    result
+}
